@@ -85,7 +85,9 @@ impl StyleSheetOutput {
         let output_start_pos = self.s.len();
         write_token_css(&token, &mut self.s);
         let name = src.map(|x| {
-            let s = x.to_css_string();
+            // (written like the output tokens: integers of seven or more digits keep all digits)
+            let mut s = String::new();
+            write_token_css(&x, &mut s);
             self.source_map.add_name(&s)
         });
         self.source_map.add_raw(
